@@ -196,6 +196,9 @@ class JsonSchemaGenerator:
                 break
         for constraint, value, validator in t.__validators__:
             constraint_name = constrains_map.get(constraint, constraint)
+            if isinstance(value, EnumMeta):
+                # enum = <Enum class>: publish the member values (the class itself is not JSON)
+                value = [member.value for member in value]
             data[constraint_name] = value
 
         extra = getattr(t, 'extra', None)
